@@ -15,7 +15,7 @@ VARIABLES c
 
 S(cp) == [t |-> "str", s |-> cp]
 Id(str, cp) == [t |-> "id", n |-> str, name |-> cp]
-Leaves == { S(<<97>>), S(<<>>), S(<<34, 92, 10, 233, 39>>), S(<<9, 0, 127, 13>>), S(<<128512, 123>>),
+Leaves == { S(<<97>>), S(<<>>), S(<<233, 10, 97, 2309>>), S(<<2309, 3585, 92>>), [t |-> "range", lo |-> 2309, hi |-> 3585], S(<<34, 92, 10, 233, 39>>), S(<<9, 0, 127, 13>>), S(<<128512, 123>>),
             [t |-> "ins", s |-> <<98, 67>>],
             [t |-> "range", lo |-> 97, hi |-> 122], [t |-> "range", lo |-> 39, hi |-> 92], [t |-> "range", lo |-> 0, hi |-> 1114111],
             Id("r1", <<114, 49>>), Id("ANY", <<65, 78, 89>>), Id("ASCII_DIGIT", <<65, 83, 67, 73, 73, 95, 68, 73, 71, 73, 84>>),
